@@ -324,7 +324,16 @@ func (e *emitter) Message(data []byte, streamEnded bool) error {
 			}
 			data = buf.Bytes()
 		case Snappy:
-			data = snappy.Encode(nil, data)
+			// The adapter reads the snappy framing (stream) format, so the same format is written.
+			var buf bytes.Buffer
+			w := snappy.NewBufferedWriter(&buf)
+			if _, err := w.Write(data); err != nil {
+				return fmt.Errorf("snappy compressing message data: %w", err)
+			}
+			if err := w.Close(); err != nil {
+				return fmt.Errorf("snappy compressing message data: %w", err)
+			}
+			data = buf.Bytes()
 		}
 	}
 	var buf bytes.Buffer
